@@ -118,6 +118,8 @@ def snapshot(data, strlen, order=None):
         gv = font2["gvar"]
         for gn in font2.getGlyphOrder():
             snap["ntuples"][gn] = len(gv.variations.get(gn, []))
+            if any(c is None for v in gv.variations.get(gn, []) for c in v.coordinates):
+                snap.setdefault("inferred", set()).add(gn)
     snap["cff"] = "CFF " in font or "CFF2" in font
     # a component transform multiplies the rounding error of the component's own points
     snap["compscale"] = 1.0
@@ -133,6 +135,35 @@ def snapshot(data, strlen, order=None):
                         (xx, xy), (yx, yy) = c.transform
                         smax = max(smax, abs(xx) + abs(yx), abs(xy) + abs(yy))
         snap["compscale"] = smax * smax  # allow one level of nesting
+        # composite depth: every level of nesting adds one independently rounded offset
+        depth = {}
+
+        def depth_of(gn, seen=()):
+            if gn not in depth:
+                g = glyf[gn]
+                depth[gn] = 0 if (not g.isComposite() or gn in seen) else 1 + max([depth_of(c.glyphName, seen + (gn,)) for c in g.components] or [0])
+            return depth[gn]
+
+        snap["compdepth"] = {gn: depth_of(gn) for gn in font3.getGlyphOrder()}
+
+        def flat(gn, seen=()):
+            g = glyf[gn]
+            out = set()
+            if g.isComposite() and gn not in seen:
+                for c in g.components:
+                    out.add(c.glyphName)
+                    out |= flat(c.glyphName, seen + (gn,))
+            return out
+
+        snap["compnames"] = {gn: sorted(flat(gn)) for gn in font3.getGlyphOrder() if glyf[gn].isComposite()}
+        # HarfBuzz (like fontTools' glyph set) draws a glyf outline shifted by lsb - xMin; the two
+        # numbers are stored - and therefore rounded by a scaling - independently
+        snap["hshift"] = {}
+        hm = font3["hmtx"].metrics
+        for gn in font3.getGlyphOrder():
+            g = glyf[gn]
+            snap["hshift"][gn] = (hm[gn][1] - g.xMin) if g.numberOfContours != 0 and hasattr(g, "xMin") else 0
+            snap.setdefault("lsb", {})[gn] = hm[gn][1]
     snap["nvar"] = 0
     if "fvar" in font:
         # upper bound on delta sets that can be active for advances (HVAR regions / gvar tuples)
@@ -177,8 +208,31 @@ def compare(a, b, factor, rec, what, key):
                 # the transform; the composite's xMin is rounded separately from its lsb, which
                 # shifts the whole outline (lsb - xMin) by up to one more unit
                 tol = 0.5 + 0.5 * cs_ * (1 + (nt if li else 0)) + (1.0 if cs_ > 1 else 0)
-            worst, drift_ok, struct = raw_compare(rawa, rawb, factor, per_move=0.5 * (1 + (a.get("nvar", 0) if li else 0)))
-            if struct and factor <= 0.125:
+                # a composite of composites: one more rounded offset per further level
+                tol += 0.5 * cs_ * max(0, a.get("compdepth", {}).get(gn, 0) - 1)
+            if li and factor <= 0.125 and (gn in a.get("inferred", ()) or any(c in a.get("inferred", ()) for c in a.get("compnames", {}).get(gn, ()))):
+                # heavy down-scaling makes distinct coordinates coincide; deltas that gvar leaves to
+                # be inferred (IUP) are interpolated over those collapsed coordinates, which is not
+                # a rounding of the scaled inferred delta: not judged away from the default location
+                rec.count("IUP-inferred deltas at upem/8 or smaller: variation locations not judged")
+                tol = float("inf")
+            sha = shb = 0
+            if not a.get("cff") and "hshift" in a and "hshift" in b:
+                if li == 0:
+                    # default location: take the (exactly known) shift out on both sides, so that the
+                    # points are compared with the point budget alone; the side bearing itself must
+                    # be the rounded scaled one
+                    sha, shb = a["hshift"].get(gn, 0), b["hshift"].get(gn, 0)
+                    if abs(a["lsb"][gn] * factor - b["lsb"][gn]) > 0.5 + 1e-9:
+                        rec.violation(what + ":lsb", "%s glyph %r: left side bearing %s -> %s (factor %s)" % (key, gn, a["lsb"][gn], b["lsb"][gn], factor))
+                else:
+                    # elsewhere the shift varies with the phantom points: lsb' is rounded once more
+                    # (0.5 [+0.5 per tuple]) and xMin' carries the point budget again
+                    tol += tol + 0.5
+            worst, drift_ok, struct = raw_compare(rawa, rawb, factor, per_move=0.5 * (1 + (a.get("nvar", 0) if li else 0)), shift_a=sha, shift_b=shb)
+            if tol == float("inf"):
+                pass
+            elif struct and factor <= 0.125:
                 # heavy down-scaling of CFF: moves that round to zero are dropped by the
                 # rasteriser, the point structure collapses; compare the extents instead
                 rec.count("collapsed outline at small em: extents compared")
@@ -249,7 +303,7 @@ def point_stream(start, segs):
     return pts
 
 
-def raw_compare(ra, rb, k, per_move=0.5):
+def raw_compare(ra, rb, k, per_move=0.5, shift_a=0, shift_b=0):
     """ra, rb: raw contours [(closed, start, segs)].  Returns (worst absolute coordinate error
     against ra*k, whether every error stays within the cumulative rounding budget of
     `per_move` per coordinate written so far, structural mismatch message or None).
@@ -271,7 +325,7 @@ def raw_compare(ra, rb, k, per_move=0.5):
             return worst, False, "contour point count %d -> %d" % (len(pa), len(pb))
         n += 1
         for p, q in zip(pa, pb):
-            e = max(abs(p[0] * k - q[0]), abs(p[1] * k - q[1]))
+            e = max(abs((p[0] - shift_a) * k - (q[0] - shift_b)), abs(p[1] * k - q[1]))
             worst = max(worst, e)
             if e > per_move * n + 0.5:
                 drift_ok = False
